@@ -362,6 +362,8 @@ def _chains():
 
 
 def cases(tier, seed):
+    for c in _fan_cases():
+        yield c
     # ---- matrix
     for c in CONTEXT_NAMES:
         for d in DEF_KINDS:
@@ -1249,7 +1251,102 @@ def _is_sample_case(case, key, o):
     return False
 
 
+# ---------------------------------------------------------------------------------------------
+# fan: a definition with SEVERAL references of which a later one leads (directly or through further definitions)
+# to a symbol of a type the context does not admit: the transitive check must follow every reference, not only the
+# first one of each definition
+# ---------------------------------------------------------------------------------------------
+FAN_BAD = {'list': 'def list BAD = p q', 'path': 'def path BAD = -rel-act y'}
+FAN_CONTEXTS = {
+    # contexts that require strings all the way down (the manual: FILE-NAME / INTEGER / names are STRINGs built from
+    # string symbols only); {C} is the reference
+    'path-component': 'def path Q = -rel-act {C}',
+    'dir-name': 'dir -rel-act {C}',
+    'env-name': 'env unset {C}',
+    'integer': 'timeout = {C}',
+}
+
+
+def _fan_cases():
+    for bad in FAN_BAD:
+        for ctxname in FAN_CONTEXTS:
+            if ctxname == 'integer':
+                continue  # a list/path inside an INTEGER string: covered by the all-good control only (see below)
+            for depth in (1, 2, 3):
+                for pos in (0, 1, 2):
+                    for phase in ('setup', 'cleanup'):
+                        yield {'part': 'fan', 'bad': bad, 'ctx': ctxname, 'depth': depth, 'pos': pos, 'phase': phase}
+    for ctxname in FAN_CONTEXTS:
+        for depth in (1, 2, 3):
+            yield {'part': 'fan', 'bad': None, 'ctx': ctxname, 'depth': depth, 'pos': 1, 'phase': 'setup'}
+
+
+def run_fan(case, ctx):
+    import os
+    from vf import probe
+    ses = ctx.get_session()
+    d = ses.new_case_dir({})
+    marker = os.path.join(d, 'marker.txt')
+    good_value = '7' if case['ctx'] == 'integer' else 'x'
+    L = ['[setup]', '$ echo ran >> ' + marker, 'def string A = %s' % good_value, 'def string A2 = %s' % good_value]
+    if case['bad']:
+        L.append(FAN_BAD[case['bad']])
+        leaf = 'BAD'
+    else:
+        L.append('def string GOOD = %s' % good_value)
+        leaf = 'GOOD'
+    # chain of depth-1 intermediate string definitions down to the leaf
+    prev = leaf
+    for k in range(case['depth'] - 1):
+        L.append('def string B%d = @[%s]@' % (k, prev))
+        prev = 'B%d' % k
+    refs = ['@[A]@', '@[A2]@']
+    refs.insert(case['pos'], '@[%s]@' % prev)
+    L.append('def string C = ' + ''.join(refs))
+    use = FAN_CONTEXTS[case['ctx']].replace('{C}', '@[C]@')
+    if case['phase'] == 'setup':
+        L.append(use)
+        L += ['[act]', '$ true']
+    else:
+        L += ['[act]', '$ true', '[cleanup]', use]
+    text = '\n'.join(L) + '\n'
+    with open(os.path.join(d, 't.case'), 'w') as f:
+        f.write(text)
+    r = ses.run([os.path.join(d, 't.case')], cwd=d, mode='normal')
+    viol, inconc = [], []
+    if r.timed_out:
+        inconc.append('watchdog')
+    elif r.exc is not None:
+        viol.append({'what': 'C08 fan: exception escaped', 'detail': {'case_text': text, 'exc': r.exc[-300:]}})
+    else:
+        ident = r.out.strip()
+        ctx.count('c08.fan_programs_judged')
+        if case['bad']:
+            ran = os.path.exists(marker) or r.new_tmp_entries or r.calls
+            if not (r.rc == 65 and ident == 'VALIDATION_ERROR'):
+                viol.append({'what': 'C08 fan: `%s` where C = %s and %s leads (depth %d) to a %s symbol is not rejected '
+                                     'with VALIDATION_ERROR/65: got %s/%r' % (use, ''.join(refs), refs[case['pos']],
+                                                                             case['depth'], case['bad'], ident, r.rc),
+                             'detail': {'case_text': text, 'stderr': r.err[:500]}})
+            elif ran:
+                viol.append({'what': 'C08 fan: rejected program was (partly) executed', 'detail': {'case_text': text}})
+        else:
+            if not (r.rc == 0 and ident == 'PASS'):
+                viol.append({'what': 'C08 fan control (all strings) `%s` does not PASS: %s/%r' % (use, ident, r.rc),
+                             'detail': {'case_text': text, 'stderr': r.err[:500]}})
+    ses.clean_tmp()
+    ses.drop(d)
+    res = {'classes': [('fan', str(case['bad']), case['ctx'], case['depth'], case['pos'], case['phase'])],
+           'viol': viol, 'inconclusive': inconc}
+    if case['bad'] == 'list' and case['depth'] == 2 and case['pos'] == 2 and case['ctx'] == 'path-component' \
+            and case['phase'] == 'setup':
+        res['sample'] = {'case_text': text, 'expected': 'VALIDATION_ERROR, nothing executed', 'observed': r.out.strip()}
+    return res
+
+
 def run_case(case, ctx):
+    if case['part'] == 'fan':
+        return run_fan(case, ctx)
     progs = BUILDERS[case['part']](case)
     res = {'classes': [], 'viol': [], 'inconclusive': [], 'evaluations': 0}
     for key, prog in progs:
